@@ -3,6 +3,8 @@ C32 — volume server range requests: executable model (core Lean only).
 
 Mirrors, function by function:
   weed/server/volume_server_handlers_helper.go  parseRange / sumRangesSize / httpRange.contentRange
+                                                (after the `fix:` commits: a signed suffix length is invalid, a range
+                                                that selects no byte is skipped, 416 only when none is left)
   weed/server/common.go                         processRangeRequest (decision tree; after the
                                                 `fix:` commit an ignored range request serves the whole content)
   weed/server/volume_server_handlers_read.go    GetOrHeadHandler's choice of representation
@@ -86,51 +88,79 @@ structure Rg where
   length : Int
 deriving DecidableEq, Repr
 
+/-- what one list element contributes: an error for the whole header, nothing (the range does not overlap the
+    content: `noOverlap = true; continue`), or a range -/
+inductive Elem where
+  | invalid
+  | noOverlap
+  | range (r : Rg)
+deriving DecidableEq, Repr
+
+/-- `end == "" || end[0] == '-'` -/
+def emptyOrSigned : List Char → Bool
+  | [] => true
+  | c :: _ => c == '-'
+
 /-- one trimmed, non-empty element of the list -/
-def parseOne (ra : List Char) (size : Int) : Option Rg :=
+def parseOne (ra : List Char) (size : Int) : Elem :=
   match cut '-' ra with
-  | none => none
+  | none => .invalid
   | some (s0, e0) =>
     let start := trimSpace s0
     let end_ := trimSpace e0
     if start = [] then
+      if emptyOrSigned end_ then .invalid else
       match parseInt64 end_ with
-      | none => none
+      | none => .invalid
       | some i =>
+        if i < 0 then .invalid else
         let i := if i > size then size else i
+        if i = 0 then .noOverlap else
         let st := wrap64 (size - i)
-        some ⟨st, wrap64 (size - st)⟩
+        .range ⟨st, wrap64 (size - st)⟩
     else
       match parseInt64 start with
-      | none => none
+      | none => .invalid
       | some i =>
-        if i > size ∨ i < 0 then none else
-        if end_ = [] then some ⟨i, size - i⟩ else
+        if i < 0 then .invalid else
+        if i ≥ size then .noOverlap else
+        if end_ = [] then .range ⟨i, size - i⟩ else
         match parseInt64 end_ with
-        | none => none
+        | none => .invalid
         | some j =>
-          if i > j then none else
+          if i > j then .invalid else
           let j := if j ≥ size then size - 1 else j
-          some ⟨i, j - i + 1⟩
+          .range ⟨i, j - i + 1⟩
 
-def parsePieces : List (List Char) → Int → Option (List Rg)
-  | [], _ => some []
+/-- the loop: (ranges, noOverlap); `none` = "invalid range" -/
+def parsePieces : List (List Char) → Int → Option (List Rg × Bool)
+  | [], _ => some ([], false)
   | p :: ps, size =>
     let ra := trimSpace p
     if ra = [] then parsePieces ps size else
     match parseOne ra size with
-    | none => none
-    | some r =>
+    | .invalid => none
+    | .noOverlap =>
       match parsePieces ps size with
       | none => none
-      | some rs => some (r :: rs)
+      | some (rs, _) => some (rs, true)
+    | .range r =>
+      match parsePieces ps size with
+      | none => none
+      | some (rs, no) => some (r :: rs, no)
 
-/-- `parseRange(s, size)`: `none` = "invalid range" -/
-def parseRange (s : List Char) (size : Int) : Option (List Rg) :=
-  if s = [] then some [] else
+/-- `parseRange` before its last test: the ranges and the `noOverlap` flag -/
+def parseRangeD (s : List Char) (size : Int) : Option (List Rg × Bool) :=
+  if s = [] then some ([], false) else
   match stripBytesPrefix s with
   | none => none
   | some rest => parsePieces (splitOn ',' rest) size
+
+/-- `parseRange(s, size)`: `none` = an error ("invalid range", or errNoOverlap when ranges were skipped and none is left) -/
+def parseRange (s : List Char) (size : Int) : Option (List Rg) :=
+  match parseRangeD s size with
+  | none => none
+  | some (rs, no) => if no ∧ rs = [] then none else some rs
 
 def sumLen (rs : List Rg) : Int := (rs.map (·.length)).sum
 
@@ -194,10 +224,30 @@ def isGzMagic (bs : List Nat) : Bool :=
 
 def gzipWord : List Char := "gzip".toList
 
+/-- ASCII `strings.ToLower` -/
+def lowerAscii (c : Char) : Char := if 'A' ≤ c ∧ c ≤ 'Z' then Char.ofNat (c.toNat + 32) else c
+
+/-- `strings.HasPrefix(p, "q=0") && strings.Trim(p[3:], "0.") == ""` on the trimmed, lower-cased parameter -/
+def paramRefuses (p : List Char) : Bool :=
+  match (trimSpace p).map lowerAscii with
+  | 'q' :: '=' :: '0' :: rest => rest.all fun c => c == '0' || c == '.'
+  | _ => false
+
+/-- one element of Accept-Encoding: coding gzip / x-gzip and no parameter q=0 -/
+def elemListsGzip (e : List Char) : Bool :=
+  match splitOn ';' e with
+  | [] => false
+  | coding :: params =>
+    let c := (trimSpace coding).map lowerAscii
+    (c == gzipWord || c == "x-gzip".toList) && !(params.any paramRefuses)
+
+/-- `acceptsGzip(r.Header.Get("Accept-Encoding"))` (after the `fix:` commit: element-wise, not a substring test) -/
+def acceptsGzip (ae : List Char) : Bool := (splitOn ',' ae).any elemListsGzip
+
 /-- (bytes served, Content-Encoding: gzip?) -/
 def represent (b : Blob) (acceptEncoding : List Char) : List Nat × Bool :=
   if b.compressed then
-    if containsSub gzipWord acceptEncoding && isGzMagic b.stored then (b.stored, true)
+    if acceptsGzip acceptEncoding && isGzMagic b.stored then (b.stored, true)
     else (b.plain, false)
   else (b.stored, false)
 
